@@ -7,16 +7,20 @@
   where `deliverToB k` hands the k-th datagram A has EVER emitted to `B.process_packet` (k arbitrary: never chosen =
   loss, chosen twice = duplication, chosen late / out of order = delay / reordering), and likewise `deliverToA`.
   `submitted ch` is the ghost list of messages A's application passed to `send_message` on reliable channel `ch`
-  that the channel accepted; `obtained ch` the ghost list of messages B's application got from `receive_message`.
+  that the channel accepted (message id = position in the list); `submittedU ch` the messages passed to the
+  unreliable channel `ch`; `obtained ch` the ghost list of messages B's application got from `receive_message`.
 
   The theorems compose: C15 genuineness of every flush (`SendRel.getPackets_genuine`) + the sender bookkeeping
-  invariant `ChanG` (S1) + C13/C16 wire round trip (`reliable_wf`, `Packet.fromBytes_enc`) + the receiver-side
-  invariants of C01–C03 (`DataPath.OrdInv`, `DataPath.UnordInv`) + the C08 ack chain.
+  invariant `ChanG` (S1: `next_message_id` = length of the log, every `unacked` entry is the logged message) +
+  C13/C16 wire round trip (`reliable_wf`, `Packet.fromBytes_enc`) + the receiver-side invariants of C01–C03
+  (`DataPath.OrdInv`, `DataPath.UnordInv`, `DataPath.UInv`) + the C08 ack chain (`release_only_by_ack`,
+  `sliced_release_needs_every_slice`, `pending_acks_only_received`, sequence numbers of A's packets are unique).
 
-  Hypothesis `CountersOK cfg s` (on the FINAL state only; it then holds for every earlier state of the run):
-  channel ids are bytes, A's `packet_sequence` ≤ 2^62, at most 2^62 messages were submitted per channel, no message
-  is longer than MAX_NUM_SLICES * SLICE_SIZE (1.2 GB).  A run in which a model function panics is `none` and is
-  excluded by `run … = some s` (absence of panics is the subject of C06/C12/C13).
+  Hypothesis `CountersOK cfg s` (on the FINAL state only; `counters_run`: it then holds for every earlier state):
+  channel ids are bytes (`u8` in the Rust code), A's `packet_sequence` ≤ 2^62, at most 2^62 messages were submitted
+  per reliable channel, no submitted message is longer than MAX_NUM_SLICES * SLICE_SIZE (1.2 GB; the receiver's
+  decoder rejects larger slice counts).  A run in which a model function panics is `none` and is excluded by
+  `run … = some s` (absence of panics is the subject of C06/C12/C13).
 -/
 import RenetVerif.Lemmas.System
 namespace RenetVerif.C01S
@@ -63,6 +67,15 @@ theorem integrity_end_to_end (cfg : Cfg) (ops : List SysOp) (s : Sys)
     obtain ⟨id, -, hid⟩ := List.mem_map.mp this
     exact List.mem_of_getElem? hid
 
+/-- **C03, end to end (unreliable kind).**  On an Unreliable channel every message the receiving application
+    obtains — small, or reassembled from slices — is byte-identical to one that was passed to `send_message` on that
+    channel (`submittedU`); nothing is fabricated, nothing is assembled from slices of different messages. -/
+theorem integrity_unreliable_end_to_end (cfg : Cfg) (ops : List SysOp) (s : Sys)
+    (hr : (Sys.init cfg).run ops = some s) (hc : CountersOK cfg s) (ch : Nat) (hk : cfg.Unreliable ch) :
+    ∀ x ∈ s.obtained ch, x ∈ s.submittedU ch := by
+  obtain ⟨pkA, -, -, -, Lg, -, hB⟩ := system_inv cfg ops s hr
+  exact (hB hc).conclU ch (relKind_unreliable hk)
+
 /-- **C08, end to end.**  If message `id` of A's reliable channel `ch` has been issued (`id < next_message_id`) and is
     no longer in `unacked` — A has stopped retransmitting it and given its bytes back to the channel's memory budget —
     then every packet needed to rebuild that message was handed to B: `m` being the `id`-th submitted message,
@@ -82,7 +95,7 @@ theorem release_only_after_delivery (cfg : Cfg) (ops : List SysOp) (s : Sys)
           s.outA[k]? = some bytes ∧
           Packet.fromBytes bytes = .ok (.reliableSlice sq ch
             ⟨id, i, divCeil m.length SLICE_SIZE, sliceBytes m (divCeil m.length SLICE_SIZE) i⟩)) := by
-  obtain ⟨pkA, h1, h2, h3⟩ := system_inv cfg ops s hr
+  obtain ⟨pkA, h1, h2, h3, -⟩ := system_inv cfg ops s hr
   have h2 := h2 hc
   obtain ⟨hg, -⟩ := h1.chanA ch sA hf
   have hlt : id < (s.submitted ch).length := by rw [← hg.nid]; exact hid
@@ -122,7 +135,7 @@ theorem slice_marked_only_after_delivery (cfg : Cfg) (ops : List SysOp) (s : Sys
     (i : Nat) (hi : a[i]? = some true) :
     ∃ j ∈ s.deliveredToB, ∃ bytes sq, s.outA[j]? = some bytes ∧
       Packet.fromBytes bytes = .ok (.reliableSlice sq ch ⟨id, i, n, sliceBytes m n i⟩) := by
-  obtain ⟨pkA, h1, h2, h3⟩ := system_inv cfg ops s hr
+  obtain ⟨pkA, h1, h2, h3, -⟩ := system_inv cfg ops s hr
   have h2 := h2 hc
   obtain ⟨hg, -⟩ := h1.chanA ch sA hf
   obtain ⟨-, o2, o3, -⟩ := (h1.invA.1.chans ch sA hf).1.find_ok hent
@@ -147,5 +160,155 @@ theorem slice_marked_only_after_delivery (cfg : Cfg) (ops : List SysOp) (s : Sys
       simp only at e1 e2 g3 g5
       subst e1 e2 g5
       rw [g3, o2]
+
+/-! ## non-vacuity: concrete runs evaluated by the kernel
+
+  `Ex` — one ReliableOrdered channel (id 0) each way, 60000 bytes per tick, resend time 100 ns.
+  A submits a 3-byte message (id 0) and a 1300-byte message (id 1: two slices of 1200 and 100 bytes) and flushes:
+  `outA[0]` = slice 0 of message 1, `outA[1]` = slice 1, `outA[2]` = the small-message packet.
+  The network delivers `outA[1]`, `outA[2]`, `outA[1]` again (duplicate) — B's application gets message 0 only
+  (state `mid`).  B's ack (`outB[0]`, covering packets 1..2) reaches A, which releases message 0 and marks slice 1;
+  after the resend time A flushes again (`outA[3]` = slice 0 retransmitted, `outA[4]` = A's own ack packet);
+  `outA[3]` is delivered, B's application gets message 1; B's second ack (`outB[1]`, packets 1..3) reaches A, which
+  releases message 1; finally the stale first ack arrives again.  `outA[0]` and `outA[4]` are never delivered. -/
+namespace Ex
+
+def cfg : Cfg := ⟨60000, [⟨0, .ordered, 100000, 100⟩], [⟨0, .ordered, 100000, 100⟩]⟩
+def m0 : Bytes := [1, 2, 3]
+def m1 : Bytes := List.replicate 1200 7 ++ List.replicate 100 9
+def ops1 : List SysOp :=
+  [.sendA 0 m0, .sendA 0 m1, .flushA, .deliverToB 1, .deliverToB 2, .recvB 0, .deliverToB 1, .recvB 0]
+def ops2 : List SysOp :=
+  [.flushB, .deliverToA 0, .updA 1000, .flushA, .deliverToB 3, .recvB 0, .recvB 0, .flushB, .deliverToA 1, .deliverToA 0]
+
+def mid : Sys := ((Sys.init cfg).run ops1).getD (Sys.init cfg)
+def fin : Sys := (mid.run ops2).getD (Sys.init cfg)
+
+theorem run1 : (Sys.init cfg).run ops1 = some mid := some_getD (by decide +kernel) _
+theorem run2 : mid.run ops2 = some fin := some_getD (by decide +kernel) _
+theorem run12 : (Sys.init cfg).run (ops1 ++ ops2) = some fin := by
+  rw [Sys.run_append, run1, Option.bind_some, run2]
+
+/-- everything the examples below need to know about the two states, evaluated once by the kernel -/
+theorem facts :
+    (fin.a.packetSeq ≤ Varint.MAX + 1 ∧ (∀ c ∈ cfg.send, (fin.submitted c.id).length ≤ Varint.MAX + 1) ∧
+      (∀ c ∈ cfg.send, ∀ m ∈ fin.submitted c.id, m.length ≤ MAX_NUM_SLICES * SLICE_SIZE) ∧
+      (∀ c ∈ cfg.send, ∀ m ∈ fin.submittedU c.id, m.length ≤ MAX_NUM_SLICES * SLICE_SIZE)) ∧
+    (mid.submitted 0 = [m0, m1] ∧ mid.obtained 0 = [m0] ∧ fin.submitted 0 = [m0, m1] ∧ fin.obtained 0 = [m0, m1] ∧
+      fin.deliveredToB = [1, 2, 1, 3] ∧ fin.outA.length = 5 ∧ fin.outB.length = 2) ∧
+    ((SMap.find? fin.a.sendRel 0).map (fun s => (s.nextId, s.unacked, s.available)) = some (2, [], 100000) ∧
+      (SMap.find? mid.a.sendRel 0).map (fun s => (s.nextId, s.unacked.map (·.1), s.available)) = some (2, [0, 1], 100000 - 1303)) ∧
+    ((fin.outA[2]?).map Packet.fromBytes = some (.ok (.smallReliable 2 0 [(0, m0)])) ∧
+      (fin.outA[1]?).map Packet.fromBytes = some (.ok (.reliableSlice 1 0 ⟨1, 1, 2, List.replicate 100 9⟩)) ∧
+      (fin.outA[3]?).map Packet.fromBytes = some (.ok (.reliableSlice 3 0 ⟨1, 0, 2, List.replicate 1200 7⟩))) := by
+  decide +kernel
+
+/-- the counters hypothesis holds in the final state -/
+theorem counters : CountersOK cfg fin := ⟨by decide, facts.1.1, facts.1.2.1, facts.1.2.2.1, facts.1.2.2.2⟩
+
+theorem ordered0 : cfg.Ordered 0 := ⟨⟨_, List.mem_singleton.mpr rfl, rfl, rfl⟩, by decide⟩
+
+/-- C01 at the end of the run … -/
+example : fin.obtained 0 <+: fin.submitted 0 := ordered_prefix_end_to_end cfg _ fin run12 counters 0 ordered0
+/-- … and at the intermediate moment `mid` -/
+example : mid.obtained 0 <+: mid.submitted 0 := ordered_prefix_always cfg ops1 ops2 mid fin run1 run2 counters 0 ordered0
+/-- what actually happened: a strict prefix in the middle (message 1 incomplete: slice 0 lost), everything at the end;
+    four datagrams were handed to B, one of them twice, two of A's five datagrams never -/
+example : mid.submitted 0 = [m0, m1] ∧ mid.obtained 0 = [m0] ∧ fin.submitted 0 = [m0, m1] ∧ fin.obtained 0 = [m0, m1] ∧
+    fin.deliveredToB = [1, 2, 1, 3] ∧ fin.outA.length = 5 ∧ fin.outB.length = 2 := facts.2.1
+/-- C03 -/
+example : ∀ x ∈ fin.obtained 0, x ∈ fin.submitted 0 := integrity_end_to_end cfg _ fin run12 counters 0 (Or.inl ordered0)
+
+/-- A's sending channel at the end: both messages released, available memory back to the full budget (in the middle
+    both were still stored: `facts.2.2.1.2`) -/
+theorem chanFin : ∃ sA, SMap.find? fin.a.sendRel 0 = some sA ∧ sA.nextId = 2 ∧ sA.unacked = [] := by
+  have h := facts.2.2.1.1
+  cases hf : SMap.find? fin.a.sendRel 0 with
+  | none => rw [hf] at h; cases h
+  | some sA =>
+    rw [hf] at h
+    simp only [Option.map_some, Option.some.injEq, Prod.mk.injEq] at h
+    exact ⟨sA, rfl, h.1, h.2.1⟩
+
+/-- C08 for the small message 0 and the sliced message 1: the delivered datagrams exist … -/
+example (id : Nat) (hid : id < 2) : ∃ m, (fin.submitted 0)[id]? = some m ∧
+    (m.length ≤ SLICE_SIZE → ∃ k ∈ fin.deliveredToB, ∃ bytes sq msgs, fin.outA[k]? = some bytes ∧
+      Packet.fromBytes bytes = .ok (.smallReliable sq 0 msgs) ∧ (id, m) ∈ msgs) ∧
+    (SLICE_SIZE < m.length → ∀ i, i < divCeil m.length SLICE_SIZE → ∃ k ∈ fin.deliveredToB, ∃ bytes sq,
+      fin.outA[k]? = some bytes ∧ Packet.fromBytes bytes = .ok (.reliableSlice sq 0
+        ⟨id, i, divCeil m.length SLICE_SIZE, sliceBytes m (divCeil m.length SLICE_SIZE) i⟩)) := by
+  obtain ⟨sA, hf, hn, hu⟩ := chanFin
+  exact release_only_after_delivery cfg _ fin run12 counters 0 sA hf id (by omega) (by rw [hu]; rfl)
+/-- … message 0 in `outA[2]`; slice 1 of message 1 in `outA[1]`, slice 0 only in the retransmission `outA[3]` (the
+    first copy `outA[0]` was never handed to B) -/
+example : (fin.outA[2]?).map Packet.fromBytes = some (.ok (.smallReliable 2 0 [(0, m0)])) ∧
+    (fin.outA[1]?).map Packet.fromBytes = some (.ok (.reliableSlice 1 0 ⟨1, 1, 2, List.replicate 100 9⟩)) ∧
+    (fin.outA[3]?).map Packet.fromBytes = some (.ok (.reliableSlice 3 0 ⟨1, 0, 2, List.replicate 1200 7⟩)) ∧
+    0 ∉ fin.deliveredToB := ⟨facts.2.2.2.1, facts.2.2.2.2.1, facts.2.2.2.2.2, by rw [facts.2.1.2.2.2.2.1]; decide⟩
+
+end Ex
+
+/-! `ExU` — a ReliableUnordered channel 0 from A to B.  A submits a 2-byte message, flushes (`outA[0]`), submits a
+    1300-byte message, flushes (`outA[1]`, `outA[2]` = its slices).  Delivery order: `outA[2]`, `outA[1]` — B's
+    application gets the LATER message first — then `outA[0]`, then `outA[2]` again. -/
+namespace ExU
+
+def cfg : Cfg := ⟨60000, [⟨0, .unordered, 100000, 100⟩], [⟨0, .ordered, 100000, 100⟩]⟩
+def a : Bytes := [4, 5]
+def b : Bytes := List.replicate 1200 7 ++ List.replicate 100 9
+def ops : List SysOp :=
+  [.sendA 0 a, .flushA, .sendA 0 b, .flushA, .deliverToB 2, .deliverToB 1, .recvB 0, .deliverToB 0, .deliverToB 2,
+   .recvB 0, .recvB 0]
+def fin : Sys := ((Sys.init cfg).run ops).getD (Sys.init cfg)
+
+theorem run : (Sys.init cfg).run ops = some fin := some_getD (by decide +kernel) _
+theorem facts :
+    (fin.a.packetSeq ≤ Varint.MAX + 1 ∧ (∀ c ∈ cfg.send, (fin.submitted c.id).length ≤ Varint.MAX + 1) ∧
+      (∀ c ∈ cfg.send, ∀ m ∈ fin.submitted c.id, m.length ≤ MAX_NUM_SLICES * SLICE_SIZE) ∧
+      (∀ c ∈ cfg.send, ∀ m ∈ fin.submittedU c.id, m.length ≤ MAX_NUM_SLICES * SLICE_SIZE)) ∧
+    (fin.submitted 0 = [a, b] ∧ fin.obtained 0 = [b, a]) := by decide +kernel
+theorem counters : CountersOK cfg fin := ⟨by decide, facts.1.1, facts.1.2.1, facts.1.2.2.1, facts.1.2.2.2⟩
+theorem unordered0 : cfg.Unordered 0 := ⟨⟨_, List.mem_singleton.mpr rfl, rfl, rfl⟩, by decide⟩
+
+/-- C02 -/
+example : ∃ ids : List Nat, ids.Nodup ∧ (fin.obtained 0).map some = ids.map (fun id => (fin.submitted 0)[id]?) :=
+  unordered_once_end_to_end cfg ops fin run counters 0 unordered0
+/-- what actually happened: out of order, each exactly once (witness `ids = [1, 0]`) -/
+example : fin.submitted 0 = [a, b] ∧ fin.obtained 0 = [b, a] := facts.2
+/-- C03 -/
+example : ∀ x ∈ fin.obtained 0, x ∈ fin.submitted 0 := integrity_end_to_end cfg ops fin run counters 0 (Or.inr unordered0)
+
+end ExU
+
+/-! `ExN` — an Unreliable channel 0 from A to B.  A submits a 2-byte and a 1300-byte message and flushes: `outA[0]`,
+    `outA[1]` = the two slices (sliced-message id 0), `outA[2]` = the small-message packet.  Delivery order: `outA[1]`,
+    `outA[2]`, then `outA[0]` (completing the reassembly), then `outA[1]` once more (a stale duplicate fragment). -/
+namespace ExN
+
+def cfg : Cfg := ⟨60000, [⟨0, .unreliable, 100000, 0⟩], [⟨0, .ordered, 100000, 100⟩]⟩
+def a : Bytes := [4, 5]
+def b : Bytes := List.replicate 1200 7 ++ List.replicate 100 9
+def ops : List SysOp :=
+  [.sendA 0 a, .sendA 0 b, .flushA, .deliverToB 1, .deliverToB 2, .recvB 0, .deliverToB 0, .deliverToB 1, .recvB 0,
+   .updB 1000, .recvB 0]
+def fin : Sys := ((Sys.init cfg).run ops).getD (Sys.init cfg)
+
+theorem run : (Sys.init cfg).run ops = some fin := some_getD (by decide +kernel) _
+theorem facts :
+    (fin.a.packetSeq ≤ Varint.MAX + 1 ∧ (∀ c ∈ cfg.send, (fin.submitted c.id).length ≤ Varint.MAX + 1) ∧
+      (∀ c ∈ cfg.send, ∀ m ∈ fin.submitted c.id, m.length ≤ MAX_NUM_SLICES * SLICE_SIZE) ∧
+      (∀ c ∈ cfg.send, ∀ m ∈ fin.submittedU c.id, m.length ≤ MAX_NUM_SLICES * SLICE_SIZE)) ∧
+    (fin.submittedU 0 = [a, b] ∧ fin.obtained 0 = [a, b] ∧ fin.outA.length = 3 ∧ fin.deliveredToB = [1, 2, 0, 1]) := by
+  decide +kernel
+theorem counters : CountersOK cfg fin := ⟨by decide, facts.1.1, facts.1.2.1, facts.1.2.2.1, facts.1.2.2.2⟩
+theorem unreliable0 : cfg.Unreliable 0 := by unfold Cfg.Unreliable; decide
+
+/-- C03 on the unreliable kind -/
+example : ∀ x ∈ fin.obtained 0, x ∈ fin.submittedU 0 :=
+  integrity_unreliable_end_to_end cfg ops fin run counters 0 unreliable0
+/-- what actually happened: both messages arrived, the large one reassembled from slices delivered out of order -/
+example : fin.submittedU 0 = [a, b] ∧ fin.obtained 0 = [a, b] ∧ fin.outA.length = 3 ∧ fin.deliveredToB = [1, 2, 0, 1] := facts.2
+
+end ExN
 
 end RenetVerif.C01S
